@@ -411,6 +411,9 @@ impl Spec {
     pub fn describe(&self) -> String {
         format!("{:?}/{}", self.recipe, self.plan.name())
     }
+    pub fn plan_bh(&self) -> PlanBH {
+        PlanBH::new(self.plan, self.salt)
+    }
 }
 
 /// A randomly drawn control-byte layout for a table of 2^lg buckets that is filled to exactly its
